@@ -45,7 +45,9 @@ pub fn call_and_check(cc: &mut Chitchat, id: &ChitchatId, sup: &Supplied, was_re
     let r = catch(|| cc.reset_node_state_if_update(id, kvs.into_iter(), sup.max_version, sup.last_gc));
     let what = format!("{ctx}: copy before {:?}, supplied (gc {}, mv {}, kvs {:?})", before.as_ref().map(|b| (b.0, b.1, b.2.iter().map(|(k, e)| (k.clone(), e.0)).collect::<Vec<_>>())), sup.last_gc, sup.max_version, sup.kvs.iter().map(|k| (k.0.clone(), k.2, k.3)).collect::<Vec<_>>());
     if let Err(p) = r {
-        out.findings.push(Finding::new(&["C18"], "catchup.panic", format!("{what}: panicked: {p}")));
+        // the final assert of the entry point is the run-time guard of the frontier monotonicity (C04)
+        let props: &[&'static str] = if p.contains("monotonic_property") { &["C18", "C04"] } else { &["C18"] };
+        out.findings.push(Finding::new(props, "catchup.panic", format!("{what}: panicked: {p}")));
         return;
     }
     let after = view(cc, id);
@@ -70,7 +72,7 @@ pub fn call_and_check(cc: &mut Chitchat, id: &ChitchatId, sup: &Supplied, was_re
         return;
     };
     if (a.0, a.1) < (b.0, b.1) {
-        out.findings.push(Finding::new(&["C18"], "catchup.frontier_decreased", format!("{what}: (gc,mv) ({},{}) -> ({},{})", b.0, b.1, a.0, a.1)));
+        out.findings.push(Finding::new(&["C18", "C04"], "catchup.frontier_decreased", format!("{what}: (gc,mv) ({},{}) -> ({},{})", b.0, b.1, a.0, a.1)));
     }
     if a == b {
         // unchanged (an absent copy may have become an empty one at (0,0): observably the same content)
@@ -300,6 +302,32 @@ async fn interleaved(seed: u64, i: u64) -> COut {
         w.findings.clear();
     }
     out
+}
+
+/// Catch-up calls as seen by another property (C04: the frontier never moves backwards, whichever
+/// entry point moves it). Returns (findings for `prop`, calls made).
+pub fn run_for(args: &Args, prop: &str, deadline: &Deadline) -> (Vec<(Finding, Value)>, Counters) {
+    let seed = args.seed;
+    let nm = args.n(30_000, 1_000_000);
+    let ni = args.n(1_500, 100_000);
+    let res = par_run(nm + ni, args.threads, |i| {
+        if deadline.expired() {
+            return None;
+        }
+        let rt = paused_rt();
+        catch(|| if i < nm { rt.block_on(run_matrix(seed, i)) } else { rt.block_on(interleaved(seed, i - nm)) }).ok()
+    });
+    let mut c = Counters::default();
+    let mut v = vec![];
+    for (i, out) in res {
+        c.merge(&out.c);
+        for f in out.findings {
+            if f.is_for(prop) {
+                v.push((f, json!({"engine": "E9", "seed": seed, "case": i, "matrix_cases": nm})));
+            }
+        }
+    }
+    (v, c)
 }
 
 pub fn check(args: &Args) -> Outcome {
